@@ -2947,6 +2947,17 @@ impl Block {
         //
         if let Some(previous_block) = blockchain.blocks.get(&self.previous_block_hash) {
             //
+            // the block id is the height of the block : parent id plus one
+            //
+            if self.id != previous_block.id + 1 {
+                error!(
+                    "ERROR 391022: block id : {:?} does not follow the id of its parent : {:?}",
+                    self.id, previous_block.id
+                );
+                return false;
+            }
+
+            //
             // ghost blocks
             //
             if let BlockType::Ghost = previous_block.block_type {
